@@ -79,7 +79,15 @@ func TestVerifC10Calls(t *testing.T) {
 		bw.WriteByte('\n')
 		events++
 	}
-	emit(map[string]any{"k": "Reset", "schema": json.RawMessage(raw), "note": "(*Client) methods"})
+	// one segment per function, so that a rejected call of one method does not hide the others
+	byFn := map[string][]map[string]any{}
+	var fnOrder []string
+	record := func(fn string, m map[string]any) {
+		if _, ok := byFn[fn]; !ok {
+			fnOrder = append(fnOrder, fn)
+		}
+		byFn[fn] = append(byFn[fn], m)
+	}
 
 	fc := &verifConn{}
 	conn := &Connection{
@@ -155,7 +163,7 @@ func TestVerifC10Calls(t *testing.T) {
 			res = m.Call(args)
 		}()
 		if pan != "" {
-			emit(map[string]any{"k": "Panic", "op": "Call", "fn": v.Ty, "v": v.V, "panic": pan})
+			record(v.Ty, map[string]any{"k": "Panic", "op": "Call", "fn": v.Ty, "v": v.V, "panic": pan})
 			continue
 		}
 		fc.mu.Lock()
@@ -179,7 +187,13 @@ func TestVerifC10Calls(t *testing.T) {
 			}
 			e["res"] = j
 		}
-		emit(e)
+		record(v.Ty, e)
+	}
+	for _, fn := range fnOrder {
+		emit(map[string]any{"k": "Reset", "schema": json.RawMessage(raw), "note": "(*Client) method of " + fn})
+		for _, m := range byFn[fn] {
+			emit(m)
+		}
 	}
 	// which request methods exist but were never driven? (reported to the runner)
 	undriven := []string{}
